@@ -1,6 +1,6 @@
 """C06 - rejected input is always reported, with the right file and line (DESIGN 4/C06)."""
 from props.common import run_with
-from props.parsecommon import parse_step_obs
+from props.parsecommon import parse_step_obs, pathname_obs
 from props.lexcommon import lex_step_obs
 from props.inclcommon import push_obs, pop_obs
 from runner import Ob
@@ -18,6 +18,7 @@ def build_obs(tier, tables):
     obs += push_obs("c06") + [o for o in pop_obs("c06") if "own" in o.key]
     # every parse starts at line 1
     obs.append(Ob("c06-parse-starts-at-line-1", "alloc_step.c", ["-DMODE=14", "-DFAIL_AT=-1"], unwind=8, checks="none", must_reach=("end of harness",)))
+    obs += pathname_obs(["CHK_C06", "CHK_C01"], "c06par")
     return obs
 
 
